@@ -12,6 +12,7 @@ from vf.writers import vmdk as w
 
 ID = "C10"
 LEVEL = "exploration"
+CONTRACTS = True  # icontract postconditions on AlignedStream.read/peek/seek fire during this workload too
 STEP_BUDGET = 20_000_000
 ANCHOR_FILES = ["dissect/hypervisor/disk/vmdk.py", "dissect/hypervisor/disk/hdd.py"]
 RULE = (
